@@ -252,6 +252,10 @@ class CommandLineJob(Job):
             except FileNotFoundError:
                 # The job ended (and removed its pid file) in the meantime
                 return None
+            except json.JSONDecodeError:
+                # The file is being written (by another scheduler that is
+                # starting this job): no process to look at yet
+                return None
             p = Process.fromDefinition(self.launcher.connector, pinfo)
             if p is None:
                 return None
